@@ -110,3 +110,41 @@ spec fn fold_post(fired: bool, old_ret: Seq<Line>, new_ret: Seq<Line>, l: usize,
     &&& (!fired ==> new_ret == old_ret)
     &&& (!(out is Val) ==> !fired)
 }
+
+// ---- immediates index the constant tables with 16 bits (instr_to_vminstr: `.. as u16`) ----
+spec fn no_int_imm(s: Seq<Line>) -> bool {
+    forall|k: int| 0 <= k < s.len() && (#[trigger] s[k]) is Instr ==> !is_int_imm(s[k]->instr)
+}
+spec fn no_float_imm(s: Seq<Line>) -> bool {
+    forall|k: int| 0 <= k < s.len() && (#[trigger] s[k]) is Instr ==> !is_float_imm(s[k]->instr)
+}
+/// number of PushInt (resp. PushFloat) lines: an upper bound on the number of distinct int
+/// (float) constants of the program, as long as no immediate forms are present
+spec fn count_pushint(s: Seq<Line>) -> nat
+    decreases s.len(),
+{
+    if s.len() == 0 { 0 } else {
+        count_pushint(s.drop_last()) + (if s.last() is Instr && s.last()->instr is PushInt { 1nat } else { 0nat })
+    }
+}
+spec fn count_pushfloat(s: Seq<Line>) -> nat
+    decreases s.len(),
+{
+    if s.len() == 0 { 0 } else {
+        count_pushfloat(s.drop_last()) + (if s.last() is Instr && s.last()->instr is PushFloat { 1nat } else { 0nat })
+    }
+}
+proof fn lemma_count_step(s: Seq<Line>, k: int)
+    requires 0 <= k < s.len(),
+    ensures
+        count_pushint(s.take(k + 1)) == count_pushint(s.take(k)) + (if s[k] is Instr && s[k]->instr is PushInt { 1nat } else { 0nat }),
+        count_pushfloat(s.take(k + 1)) == count_pushfloat(s.take(k)) + (if s[k] is Instr && s[k]->instr is PushFloat { 1nat } else { 0nat }),
+        count_pushint(s.take(k)) <= k, count_pushfloat(s.take(k)) <= k,
+    decreases k,
+{
+    assert(s.take(k + 1).drop_last() == s.take(k));
+    assert(s.take(k + 1).last() == s[k]);
+    if k > 0 {
+        lemma_count_step(s, k - 1);
+    }
+}
